@@ -381,7 +381,9 @@ def run_check(engine_name: str, tier: str, runs_override: Optional[int] = None,
     desc = engine.describe()
     stats = dict(total["stats"])
     coverage = {
-        "evaluations": int(total["runs"]),
+        # engines may count their own unit of evaluation (histories, case executions, faulted
+        # runs); the number of simulated runs / work items is reported next to it
+        "evaluations": int(stats.get("evaluations", total["runs"])),
         "distinct_nontrivial": len(total["distinct"]),
         "rule": desc["rule"],
         "samples": total["samples"] or ["(no sample recorded)"],
